@@ -26,7 +26,7 @@ async fn new_shell() -> Option<brush_core::Shell> {
 
 /// Wall-clock budget of one awaited operation (launch, `wait %..`, `wait_all`): an operation that does not return
 /// within it is a result value (`!timeout:<op>`), not a hang of the harness.
-const OP_BUDGET_SECS: u64 = 8;
+const OP_BUDGET_SECS: u64 = 4;
 
 /// Runs `f` under the budget; `None` when the budget ran out (the future is dropped, i.e. cancelled).
 async fn with_budget<F: std::future::Future>(f: F) -> Option<F::Output> {
